@@ -32,8 +32,8 @@ ASSUMPTIONS = [
     "the cleaning filter is the element-wise maximum over the extra baselines of the reduced difference to the first baseline, floored at 0",
 ]
 FLOORS = {
-    "quick": {"earlier_result_intact": 300, "probe_object_reused_with_new_content": 60, "baseline_list_untouched": 350, "second_analysis_from_same_baselines": 100, "trace_automaton": 350, "result_is_composition": 220, "baseline_maps_to_zero": 250, "probe_unchanged": 350, "diff_option_identities": 60},
-    "thorough": {"earlier_result_intact": 3000, "probe_object_reused_with_new_content": 600, "baseline_list_untouched": 3500, "second_analysis_from_same_baselines": 1000, "trace_automaton": 3500, "result_is_composition": 2200, "baseline_maps_to_zero": 2500, "probe_unchanged": 3500, "diff_option_identities": 600},
+    "quick": {"cleaning_filter_learnt_again": 70, "earlier_result_intact": 300, "probe_object_reused_with_new_content": 60, "baseline_list_untouched": 350, "second_analysis_from_same_baselines": 100, "trace_automaton": 350, "result_is_composition": 220, "baseline_maps_to_zero": 250, "probe_unchanged": 350, "diff_option_identities": 60},
+    "thorough": {"cleaning_filter_learnt_again": 700, "earlier_result_intact": 3000, "probe_object_reused_with_new_content": 600, "baseline_list_untouched": 3500, "second_analysis_from_same_baselines": 1000, "trace_automaton": 3500, "result_is_composition": 2200, "baseline_maps_to_zero": 2500, "probe_unchanged": 3500, "diff_option_identities": 600},
 }
 DIFFS = ["absolute", "positive", "negative", "plain"]
 
@@ -249,6 +249,24 @@ def run_shard(spec, R):
                     R.check(bool(np.all(outr.img == 0)), "baseline_maps_to_zero", lambda: {**cfg, "what": "probe object overwritten in place with the baseline", "max_abs": float(np.max(np.abs(outr.img)))},
                             key=key, group=grp)
                     R.count("probe_object_reused_with_new_content")
+        # ------------- the cleaning filter learnt again from another list of baselines handed to find_cleaning_filter
+        # (the documented way to exchange it after construction); the next probe is the composition with that filter
+        if not use_real and it["id"] % 3 != 0 and not (rgb and not (it["red"] and _reduces(red))):
+            new_arrs = [rnd() for _ in range(int(rng.integers(1, 3)))]
+            okf, _f = R.guarded("find_cleaning_filter", lambda: ca.find_cleaning_filter([image(a.copy()) for a in new_arrs]))
+            if okf:
+                okf, out3 = R.guarded("call", lambda: ca(image(probe_arr.copy())))
+            if okf:
+                thr3 = 0.0
+                for a in new_arrs:
+                    thr3 = np.maximum(thr3, f_red(difference(a)))
+                ba3 = f_bal(np.clip(sig - thr3, 0, None))
+                exp3 = f_mod(f_res(ba3)) if it["order"] else f_res(f_mod(ba3))
+                sc3 = max(1.0, float(np.max(np.abs(exp3))))
+                good3 = np.shape(out3.img) == np.shape(exp3) and bool(np.all(np.abs(np.asarray(out3.img, float) - exp3) <= 2e-6 * sc3 * (9 if it["mod"] else 1)))
+                R.check(good3, "cleaning_filter_learnt_again", lambda: {**cfg, "new_baselines_dtypes": [a.dtype.name for a in new_arrs],
+                                                                        "max_diff": float(np.max(np.abs(np.asarray(out3.img, float) - exp3))) if np.shape(out3.img) == np.shape(exp3) else "shape",
+                                                                        "learnt_threshold_max": float(np.max(ca.threshold_cleaning_filter)), "expected_threshold_max": float(np.max(thr3))}, group=grp)
         # ---------------------------------- diff option identities (no stages)
         if not any((it["red"], it["bal"], it["res"], it["mod"])):
             outs = {}
